@@ -87,6 +87,166 @@ pub open spec fn fit_result(g0: GLM, g1: GLM, x: Seq<f64>, y: Seq<f64>) -> bool 
     exists|w: Seq<f64>, c0: Seq<f64>, mu: Seq<f64>, dmu: Seq<f64>, var: Seq<f64>| #[trigger] fit_result_w(g0, g1, x, y, n, p, w, c0, mu, dmu, var)
 }
 '''
+GAUSS_SPEC = r'''
+// ---- new vocabulary
+/// linear predictor of observation i over the first jj coefficients
+pub open spec fn lin(x: Seq<f64>, p: int, c: Seq<f64>, i: int, jj: int) -> real { psum(x, p, false, c, 1, false, i, 0, jj) }
+/// sum over the first k observations of x[i,r] * w_i * t_i   (row r of X^T W t)
+pub open spec fn xwt(x: Seq<f64>, p: int, r: int, w: Seq<f64>, t: spec_fn(int) -> real, k: int) -> real decreases k
+{ if k <= 0 { 0real } else { xwt(x, p, r, w, t, k - 1) + rv(at2(x, p, k - 1, r)) * rv(w[k - 1]) * t(k - 1) } }
+
+pub proof fn lemma_asum_linear(a: Seq<f64>, n: int, r: int, c0: Seq<f64>, st: Seq<f64>, c1: Seq<f64>, cc: int)
+    requires 0 <= cc, forall|j: int| 0 <= j < cc ==> rv(#[trigger] c1[j]) == rv(c0[j]) - rv(st[j])
+    ensures asum(a, n, r, c1, cc) == asum(a, n, r, c0, cc) - asum(a, n, r, st, cc)
+    decreases cc
+{
+    if cc > 0 {
+        lemma_asum_linear(a, n, r, c0, st, c1, cc - 1);
+        let h = rv(at2(a, n, r, cc - 1)); let u = rv(c0[cc - 1]); let v = rv(st[cc - 1]);
+        assert(rv(c1[cc - 1]) == u - v);
+        assert(h * (u - v) == h * u - h * v) by(nonlinear_arith);
+    }
+}
+/// adding pen on the diagonal entry (r, r) (if r >= 1) adds pen * c_r to row r of the product
+pub proof fn lemma_asum_penalty(dd0: Seq<f64>, dd: Seq<f64>, p: int, r: int, c: Seq<f64>, pen: real, cc: int)
+    requires 0 <= r < p, 0 <= cc <= p,
+             forall|j: int| 0 <= j < p ==> rv(#[trigger] at2(dd, p, r, j)) == rv(at2(dd0, p, r, j)) + (if r == j && r >= 1 { pen } else { 0real })
+    ensures asum(dd, p, r, c, cc) == asum(dd0, p, r, c, cc) + (if r >= 1 && r < cc { pen * rv(c[r]) } else { 0real })
+    decreases cc
+{
+    if cc > 0 {
+        lemma_asum_penalty(dd0, dd, p, r, c, pen, cc - 1);
+        let j = cc - 1;
+        let h0 = rv(at2(dd0, p, r, j)); let cj = rv(c[j]);
+        if r == j && r >= 1 { assert((h0 + pen) * cj == h0 * cj + pen * cj) by(nonlinear_arith); }
+        else { assert(rv(at2(dd, p, r, j)) == h0 + 0real); }
+    }
+}
+/// column step of the exchange: sum_i x[i,r] w_i (lin_i(jj) + x[i,jj] c_jj) = sum_i x[i,r] w_i lin_i(jj) + (sum_i x[i,r] wx[i,jj]) c_jj
+pub proof fn lemma_xwt_col_step(x: Seq<f64>, wx: Seq<f64>, p: int, n: int, r: int, w: Seq<f64>, c: Seq<f64>, jj: int, k: int)
+    requires 0 <= k <= n, 0 <= jj < p, 0 <= r < p,
+             forall|i: int| 0 <= i < n ==> rv(#[trigger] at2(wx, p, i, jj)) == rv(at2(x, p, i, jj)) * rv(w[i])
+    ensures xwt(x, p, r, w, |i: int| lin(x, p, c, i, jj + 1), k) == xwt(x, p, r, w, |i: int| lin(x, p, c, i, jj), k) + psum(x, p, true, wx, p, false, r, jj, k) * rv(c[jj])
+    decreases k
+{
+    let t1 = |i: int| lin(x, p, c, i, jj + 1); let t0 = |i: int| lin(x, p, c, i, jj);
+    if k > 0 {
+        lemma_xwt_col_step(x, wx, p, n, r, w, c, jj, k - 1);
+        let i = k - 1;
+        let xr = rv(at2(x, p, i, r)); let wi = rv(w[i]); let xj = rv(at2(x, p, i, jj)); let cj = rv(c[jj]); let l0 = lin(x, p, c, i, jj);
+        assert(t1(i) == l0 + xj * cj) by { assert(opa(x, p, false, i, jj) == xj); assert(opa(c, 1, false, jj, 0) == rv(c[jj * 1 + 0])); assert(jj * 1 + 0 == jj); }
+        assert(t0(i) == l0);
+        assert(opa(x, p, true, r, i) == xr);
+        assert(opa(wx, p, false, i, jj) == xj * wi);
+        let ps = psum(x, p, true, wx, p, false, r, jj, k - 1);
+        let a = xr * wi; let q = xr * (xj * wi); let m = xj * cj;
+        assert(a * (l0 + m) == a * l0 + a * m) by(nonlinear_arith);
+        assert(a * m == q * cj) by(nonlinear_arith) requires a == xr * wi, q == xr * (xj * wi), m == xj * cj;
+        assert((ps + q) * cj == ps * cj + q * cj) by(nonlinear_arith);
+    } else {
+        assert(0real * rv(c[jj]) == 0real) by(nonlinear_arith);
+    }
+}
+pub proof fn lemma_xwt_zero(x: Seq<f64>, p: int, r: int, w: Seq<f64>, c: Seq<f64>, k: int)
+    requires 0 <= k
+    ensures xwt(x, p, r, w, |i: int| lin(x, p, c, i, 0), k) == 0real
+    decreases k
+{ if k > 0 { lemma_xwt_zero(x, p, r, w, c, k - 1); let a = rv(at2(x, p, k - 1, r)) * rv(w[k - 1]); assert(a * 0real == 0real) by(nonlinear_arith); } }
+/// (X^T W X c)_r computed through the information matrix equals X^T W (X c) row r
+pub proof fn lemma_exchange(dd0: Seq<f64>, x: Seq<f64>, wx: Seq<f64>, p: int, n: int, r: int, w: Seq<f64>, c: Seq<f64>, jj: int)
+    requires 0 <= jj <= p, 0 <= r < p, 0 <= n,
+             forall|i: int, j: int| 0 <= i < n && 0 <= j < p ==> rv(#[trigger] at2(wx, p, i, j)) == rv(at2(x, p, i, j)) * rv(w[i]),
+             forall|j: int| 0 <= j < p ==> rv(#[trigger] at2(dd0, p, r, j)) == psum(x, p, true, wx, p, false, r, j, n)
+    ensures asum(dd0, p, r, c, jj) == xwt(x, p, r, w, |i: int| lin(x, p, c, i, jj), n)
+    decreases jj
+{
+    if jj > 0 {
+        lemma_exchange(dd0, x, wx, p, n, r, w, c, jj - 1);
+        lemma_xwt_col_step(x, wx, p, n, r, w, c, jj - 1, n);
+        assert(rv(at2(dd0, p, r, jj - 1)) == psum(x, p, true, wx, p, false, r, jj - 1, n));
+    } else { lemma_xwt_zero(x, p, r, w, c, n); }
+}
+/// -db0_r = sum_i x[i,r] res_i with res_i = w_i (y_i - mu_i)
+pub proof fn lemma_score_as_xwt(x: Seq<f64>, p: int, r: int, w: Seq<f64>, res: Seq<f64>, t: spec_fn(int) -> real, k: int)
+    requires 0 <= k <= res.len(), forall|i: int| 0 <= i < k ==> rv(#[trigger] res[i]) == rv(w[i]) * t(i)
+    ensures xr_sum(x, p, r, res, k) == xwt(x, p, r, w, t, k)
+    decreases k
+{
+    if k > 0 { lemma_score_as_xwt(x, p, r, w, res, t, k - 1); let a = rv(at2(x, p, k - 1, r)); let b = rv(w[k - 1]); let c = t(k - 1); assert(a * (b * c) == a * b * c) by(nonlinear_arith); }
+}
+pub proof fn lemma_xwt_add(x: Seq<f64>, p: int, r: int, w: Seq<f64>, t1: spec_fn(int) -> real, t2: spec_fn(int) -> real, t3: spec_fn(int) -> real, k: int)
+    requires 0 <= k, forall|i: int| 0 <= i < k ==> #[trigger] t3(i) == t1(i) + t2(i)
+    ensures xwt(x, p, r, w, t3, k) == xwt(x, p, r, w, t1, k) + xwt(x, p, r, w, t2, k)
+    decreases k
+{
+    if k > 0 { lemma_xwt_add(x, p, r, w, t1, t2, t3, k - 1); let a = rv(at2(x, p, k - 1, r)) * rv(w[k - 1]); let u = t1(k - 1); let v = t2(k - 1); assert(t3(k - 1) == u + v); assert(a * (u + v) == a * u + a * v) by(nonlinear_arith); }
+}
+/// Gaussian family, one Fisher-scoring step from ANY c0: row r of the weighted ridge normal equations holds for c1 whenever the linear solve is exact at row r
+pub proof fn theorem_gaussian_normal_equations(x: Seq<f64>, y: Seq<f64>, w: Seq<f64>, off: spec_fn(int) -> real, n: int, p: int, pen: real,
+        c0: Seq<f64>, c1: Seq<f64>, step: Seq<f64>, mu: Seq<f64>, res: Seq<f64>, wx: Seq<f64>, db0: Seq<f64>, dd0: Seq<f64>, db: Seq<f64>, dd: Seq<f64>, r: int)
+    requires 0 <= r < p, 0 <= n, res.len() == n,
+        forall|i: int| 0 <= i < n ==> rv(#[trigger] mu[i]) == lin(x, p, c0, i, p) + off(i),                        // identity link
+        forall|i: int| 0 <= i < n ==> rv(#[trigger] res[i]) == rv(w[i]) * (rv(y[i]) - rv(mu[i])),                 // working residuals (dmu = V = 1)
+        forall|i: int, j: int| 0 <= i < n && 0 <= j < p ==> rv(#[trigger] at2(wx, p, i, j)) == rv(at2(x, p, i, j)) * rv(w[i]),   // working weights = w
+        rv(db0[r]) == -xr_sum(x, p, r, res, n),                                                                      // negative score
+        forall|j: int| 0 <= j < p ==> rv(#[trigger] at2(dd0, p, r, j)) == psum(x, p, true, wx, p, false, r, j, n),   // information X^T W X
+        rv(db[r]) == rv(db0[r]) + (if r >= 1 { pen * rv(c0[r]) } else { 0real }),                                   // ridge penalty, intercept unpenalised
+        forall|j: int| 0 <= j < p ==> rv(#[trigger] at2(dd, p, r, j)) == rv(at2(dd0, p, r, j)) + (if r == j && r >= 1 { pen } else { 0real }),
+        forall|j: int| 0 <= j < p ==> rv(#[trigger] c1[j]) == rv(c0[j]) - rv(step[j]),                             // Newton update
+        asum(dd, p, r, step, p) == rv(db[r]),                                                                       // the solve is exact at row r
+    ensures asum(dd, p, r, c1, p) == xwt(x, p, r, w, |i: int| rv(y[i]) - off(i), n)                                 // [(X^T W X + pen I') c1]_r = [X^T W (y - off)]_r
+{
+    lemma_asum_linear(dd, p, r, c0, step, c1, p);
+    lemma_asum_penalty(dd0, dd, p, r, c0, pen, p);
+    lemma_exchange(dd0, x, wx, p, n, r, w, c0, p);
+    let tl = |i: int| lin(x, p, c0, i, p);
+    let tr = |i: int| rv(y[i]) - rv(mu[i]);
+    let ty = |i: int| rv(y[i]) - off(i);
+    lemma_score_as_xwt(x, p, r, w, res, tr, n);
+    assert forall|i: int| 0 <= i < n implies #[trigger] ty(i) == tl(i) + tr(i) by { assert(rv(mu[i]) == lin(x, p, c0, i, p) + off(i)); }
+    lemma_xwt_add(x, p, r, w, tl, tr, ty, n);
+}
+
+pub proof fn lemma_xwt_ext(x: Seq<f64>, p: int, r: int, w: Seq<f64>, t1: spec_fn(int) -> real, t2: spec_fn(int) -> real, k: int)
+    requires 0 <= k, forall|i: int| 0 <= i < k ==> #[trigger] t1(i) == t2(i)
+    ensures xwt(x, p, r, w, t1, k) == xwt(x, p, r, w, t2, k)
+    decreases k
+{ if k > 0 { lemma_xwt_ext(x, p, r, w, t1, t2, k - 1); assert(t1(k - 1) == t2(k - 1)); } }
+/// Bridge to the contract of GLM::fit: for the Gaussian family, the coefficients stored by fit satisfy row r of the weighted ridge normal equations
+/// (X^T W X + alpha I') c1 = X^T W (y - offset) whenever the linear solve of the last step is exact at row r (see lu_exact / chol_exact of C01)
+pub proof fn lemma_fit_gaussian_least_squares(g: GLM, x: Seq<f64>, y: Seq<f64>, w: Seq<f64>, n: int, p: int, c0: Seq<f64>, c1: Seq<f64>, mu: Seq<f64>, dmu: Seq<f64>, var: Seq<f64>,
+        db0: Seq<f64>, dd0: Seq<f64>, db: Seq<f64>, dd: Seq<f64>, step: Seq<f64>, r: int)
+    requires g.family is Gaussian, 0 <= r < p, 0 <= n, y.len() == n,
+             glm_at(g, x, n, p, c0, mu, dmu, var),
+             newton_step_w(g, x, y, w, n, p, c0, c1, mu, dmu, var, db0, dd0, db, dd, step),
+             asum(dd, p, r, step, p) == rv(db[r]),
+    ensures asum(dd, p, r, c1, p) == xwt(x, p, r, w, |i: int| rv(y[i]) - off_at(g, i), n)
+{
+    let pen = if rv(g.alpha) > 0real { rv(g.alpha) } else { 0real };
+    let res = choose|res: Seq<f64>| res.len() == y.len() && (forall|i: int| 0 <= i < y.len() && rv(var[i]) != 0real ==> rv(#[trigger] res[i]) == wres(w, y, mu, dmu, var, i))
+        && db0.len() == p && #[trigger] score_of(db0, x, p, res);
+    let wx = choose|wx: Seq<f64>| wx.len() == x.len() && (forall|i: int, j: int| 0 <= i < n && 0 <= j < p && rv(var[i]) != 0real ==> rv(#[trigger] at2(wx, p, i, j)) == rv(at2(x, p, i, j)) * wwt(w, dmu, var, i))
+        && #[trigger] is_product(dd0, x, p, true, wx, p, false, p, n, p);
+    assert forall|i: int| 0 <= i < n implies rv(#[trigger] mu[i]) == lin(x, p, c0, i, p) + off_at(g, i) by { assert(rv(mu[i]) == fam_inv_link(g.family, psum(x, p, false, c0, 1, false, i, 0, p) + off_at(g, i))); }
+    assert forall|i: int| 0 <= i < n implies rv(#[trigger] res[i]) == rv(w[i]) * (rv(y[i]) - rv(mu[i])) by {
+        assert(rv(dmu[i]) == fam_dmu(g.family, rv(mu[i])) && rv(var[i]) == fam_var(g.family, rv(mu[i])));
+        assert(rv(res[i]) == wres(w, y, mu, dmu, var, i));
+        let a = rv(w[i]) * (rv(y[i]) - rv(mu[i]));
+        assert(a * (1real / 1real) == a) by(nonlinear_arith);
+    }
+    assert forall|i: int, j: int| 0 <= i < n && 0 <= j < p implies rv(#[trigger] at2(wx, p, i, j)) == rv(at2(x, p, i, j)) * rv(w[i]) by {
+        assert(rv(dmu[i]) == fam_dmu(g.family, rv(mu[i])) && rv(var[i]) == fam_var(g.family, rv(mu[i])));
+        assert(rv(at2(wx, p, i, j)) == rv(at2(x, p, i, j)) * wwt(w, dmu, var, i));
+        let wi = rv(w[i]);
+        assert(wi * (1real * 1real) / 1real == wi) by(nonlinear_arith);
+    }
+    assert(rv(db0[r]) == -xr_sum(x, p, r, res, res.len() as int));
+    assert forall|j: int| 0 <= j < p implies rv(#[trigger] at2(dd0, p, r, j)) == psum(x, p, true, wx, p, false, r, j, n) by { }
+    let off = |i: int| off_at(g, i);
+    theorem_gaussian_normal_equations(x, y, w, off, n, p, pen, c0, c1, step, mu, res, wx, db0, dd0, db, dd, r);
+    lemma_xwt_ext(x, p, r, w, |i: int| rv(y[i]) - off(i), |i: int| rv(y[i]) - off_at(g, i), n);
+}
+'''
 XN = '(x@.len() as int) / (y@.len() as int)'
 TYPED = [('let mut is_converged;', 'let mut is_converged: bool;'), ('let mut eta;', 'let mut eta: Vec<f64>;'), ('let mut mu;', 'let mut mu: Vector;'), ('let mut dmu;', 'let mut dmu: Vector;'),
          ('let mut var;', 'let mut var: Vector;'), ('let mut dbeta;', 'let mut dbeta: Vec<f64>;'), ('let mut ddbeta;', 'let mut ddbeta: Vec<f64>;'), ('let mut n_iter = 0;', 'let mut n_iter: usize = 0;')]
@@ -132,7 +292,8 @@ UNITS = [
          notes='penalized_deviance = family deviance + alpha * norm of the slope coefficients (intercept excluded)'),
     Unit('C06_fit', 'C06', [fit], use=[c15.is_matrix, c15b.is_design, c08.mean, c05.matmul, c04.KERNELS['vadd'], c04.KERNELS['vsub'], c06.inv_link, c06.d_inv_link, c06.variance, c06.dbeta, c06.ddbeta,
                                        c06.pen_d, c06.pen_dd, s1.solve, pdev, c06.has_converged, c06.deviance, c04.vsum_fn] + core.core_stubs(),
-         types=TYPES, type_spec=core.TYPE_SPEC, spec=s1.SPEC + c06.SPEC + c06.FAM_SPEC + c06.SCORE_SPEC + c06.DEV_SPEC + c06.PRED_SPEC + c08.SPEC + FIT_SPEC, preludes=PRE, broadcast=BC, level='L1', rlimit=200,
+         types=TYPES, type_spec=core.TYPE_SPEC, spec=s1.SPEC + c06.SPEC + c06.FAM_SPEC + c06.SCORE_SPEC + c06.DEV_SPEC + c06.PRED_SPEC + c08.SPEC + FIT_SPEC + GAUSS_SPEC, preludes=PRE, broadcast=BC, level='L1', rlimit=200,
          notes='GLM::fit: inputs validated or rejected; the model state written at the end is consistent (coef of length p, p x p information matrix, deviance, n, p; family / penalty / tolerance / weights / offsets untouched); '
-               'Ok is returned only if the convergence test passed on the last two penalised deviances'),
+               'Ok is returned only if the convergence test passed on the last two penalised deviances; for the Gaussian family the stored coefficients satisfy the weighted ridge normal equations '
+               '(X^T W X + alpha I\') c = X^T W (y - offset) row by row wherever the last linear solve is exact (theorem_gaussian_normal_equations + bridge lemma over the contract of fit)'),
 ]
